@@ -65,7 +65,7 @@ class Run(object):
             self.undecided.append(dict(rule=rid, where='-', what='instance floor: %s: found %d < %d'
                                        % (what, found, floor)))
 
-    def ob(self, rid, unit, node, what, verdict, slot=None, message=None, path=None, detail=None):
+    def ob(self, rid, unit, node, what, verdict, slot=None, message=None, path=None, detail=None, absence=None):
         """Record one obligation. verdict: True (holds) / False (violation) / None (undecided)."""
         file = unit.file if hasattr(unit, 'file') else str(unit)
         func = unit.short if hasattr(unit, 'short') else '-'
@@ -81,7 +81,8 @@ class Run(object):
         if verdict is False:
             f_ = Finding(self.prop, rid, file, func, slot or what, line, message or what, path)
             # "something is missing from this function" (reported at the function itself) vs. "this construct is wrong"
-            f_.absence = node is None or node is getattr(unit, 'node', object())
+            # (absence=True: the rule says so itself - 'no dominating test found in front of this call' is a missing thing too)
+            f_.absence = absence if absence is not None else (node is None or node is getattr(unit, 'node', object()))
             self.findings.append(f_)
         elif verdict is None:
             self.undecided.append(dict(rule=rid, where=o['where'], what=(message or what)))
